@@ -496,6 +496,7 @@ class DAGRunConcurrentManager(DAGRunManagerLike):
                 # We must unlock descendants because the next OneOf subgraph should start the process.
                 # Otherwise, the entire subgraph will be locked.
                 await self.__unlock_descendants(node_id)
+                await self.__unlock_itself(dag.dest)
                 return None
 
             if self._is_switch(node_id):
